@@ -35,7 +35,7 @@ ANCHORS = [
 FLOOR_TAGS = ["recv:fresh", "recv:lazyrows", "recv:lazycols+2", "recv:lazycols-1", "recv:lazychain", "recv:ufunc", "recv:astype", "mask-as-list", "r:int", "r:slice+1", "r:slice+k", "r:slice-", "r:list", "r:array", "r:mask", "r:ell",
               "c:none", "c:int+", "c:int-", "c:slice+1", "c:slice+k", "c:slice-",
               "must-refuse", "sel-has-empty-row", "e-first", "e-last", "e-mid", "e-consec", "allempty", "norows"]
-FLOOR_MONITORS = ["c02:model-compare", "c02:refusal"]
+FLOOR_MONITORS = ["c02:model-compare", "c02:refusal", "c02:arguments-unchanged"]
 N_RANDOM = {"quick": 12000, "thorough": 400000}
 
 
@@ -136,12 +136,17 @@ def run(case):
     ra, parent = build_receiver(recv, flat, lens)
     parent_before = peek(parent) if parent is not None else None
     idx = model.make_index(rs, cs, has_cs)
+    arg_before = [np.array(x, copy=True) if isinstance(x, np.ndarray) else None for x in (rs, cs)]
     out = attempt(lambda: ra[idx])
     if out.ok:
         got = attempt(observe, out.value)
         if not got.ok:
             return violated("result of ra[%s] cannot be read back: %r" % (short(idx), got), tags, got=repr(got))
         got = got.value
+    CTX.tick("c02:arguments-unchanged")
+    for x, b4 in zip((rs, cs), arg_before):
+        if b4 is not None and not (x.shape == b4.shape and np.array_equal(x, b4)):
+            return violated("indexing with %s modified the caller's index array: it now reads %s" % (short(b4), short(x)), tags + ["argument-mutated"])
     if refused:
         CTX.tick("c02:refusal")
         if out.ok:
@@ -202,6 +207,25 @@ def _directed():
     yield mk_case(L, [-6])          # refuse
     yield mk_case(L, np.array([True, False, True, True, False]))
     yield mk_case(L, [True, False, True, True, False])
+    for dt_ in ("uint8", "int8", "uint16", "int16", "uint32", "uint64", "int32"):
+        t = np.dtype(dt_).type
+        yield mk_case(L, t(3), t(1), True)
+        yield mk_case(L, [3, 4, 3], t(1), True)
+        yield mk_case(L, t(4), None, False)
+        yield mk_case(L, np.array([4, 0], dtype=dt_))
+        yield mk_case(L, np.array([4, 0], dtype=dt_), np.array([1, 2], dtype=dt_), True) if False else mk_case(L, t(0), t(2), True)
+    yield mk_case([3] * 60, 59, np.int8(-128), True)        # refuse: -(-128) is still -128 in int8
+    yield mk_case([3] * 60, [59, 58], np.int8(-128), True)
+    yield mk_case(L, np.array([-1, 0, -2]), np.array([0, 1, -1])) if False else mk_case(L, np.array([-1, 0, -2]), -1, True)
+    yield mk_case(L, np.array([-1, 3, -5]), 0, True)
+    for big in (2 ** 32 + 1, -2 ** 32 + 1, 2 ** 31, 2 ** 63 - 1):
+        yield mk_case(L, big)                                # refuse
+        yield mk_case(L, 0, big, True)                       # refuse
+        yield mk_case(L, np.array([0, big]), 1, True)        # refuse
+        yield mk_case(L, big, slice(0, 2), True)             # refuse
+    yield mk_case([2, 2, 3], [0, 0, 2])                      # ascending list with a repeat, skipped row as long as the repeated one
+    yield mk_case([2, 3, 3, 1], [0, 2, -1])
+    yield mk_case([1, 1, 1, 1], [0, 1, 1, 3])
     yield mk_case(L, [False, False, False, True, False], slice(None, None, -1), True)
     yield mk_case([2, 2], [True, True])
     yield mk_case(L, np.zeros(5, dtype=bool))
@@ -293,6 +317,8 @@ def random_selector(rng, n, allow_oob=True):
         else:
             a = rng.randint(0, n - 3)
             b = rng.randint(a + 2, n - 1)
+            if rng.random() < 0.5:
+                a, b = 0, n - 1         # from the first to the last row of the array
             rows = list(range(a, b + 1))
             u = rng.random()
             if u < 0.4:
@@ -310,7 +336,10 @@ def random_selector(rng, n, allow_oob=True):
         if hi < lo:
             return 0
         v = rng.randint(lo, hi)
-        return rng.choice([v, v, np.int64(v), np.array(v)])
+        if allow_oob and rng.random() < 0.03:
+            v = rng.choice([2 ** 32 + v, -2 ** 32 + v, 2 ** 31 + 1])     # far out of range (must be refused under every index width)
+            return rng.choice([v, np.int64(v)])
+        return rng.choice([v, gen.np_int(rng, v), np.int64(v), np.array(v)])
     if k == "slice":
         return gen.gen_slice(rng, n)
     if k in ("list", "array"):
@@ -344,7 +373,10 @@ def random_case(rng, tier):
         return mk_case(lens, rs, recv=recv)
     if ck == "int":
         c = rng.randint(-maxl - 1, maxl)
-        return mk_case(lens, rs, rng.choice([c, c, np.int64(c)]), True, recv)
+        if rng.random() < 0.03:
+            c = rng.choice([2 ** 32 + c, -2 ** 32 + c])
+            return mk_case(lens, rs, rng.choice([c, np.int64(c)]), True, recv)
+        return mk_case(lens, rs, gen.np_int(rng, c), True, recv)
     return mk_case(lens, rs, gen.gen_slice(rng, maxl), True, recv)
 
 
